@@ -1,5 +1,6 @@
 //! Verification harness for tari bulletproofs-plus: drives the real library (free-module group and Ristretto), with an
 //! instrumented merlin, and prints oracle results plus request/real line pairs for the Lean model driver.
+pub mod alloc;
 pub mod fm;
 pub mod fmx;
 pub mod util;
@@ -37,6 +38,7 @@ pub mod scen_batch;
 pub mod scen_codec;
 pub mod scen_core;
 pub mod scen_ctors;
+pub mod scen_zeroize;
 pub mod scen_threads;
 pub mod scen_nonce;
 pub mod scen_gens;
@@ -44,6 +46,9 @@ pub mod scen_recover;
 pub mod scen_transcript;
 
 use util::Out;
+
+#[global_allocator]
+static GLOBAL: alloc::Scan = alloc::Scan;
 
 pub struct Opts {
     pub thorough: bool,
@@ -90,6 +95,7 @@ fn main() {
             out.case("proof shapes: rounds in {1..13, 40, 70, 2^10}, d1 length = / != degree, identity or undecodable point at chosen slots; statements (bits, agg, cap, degree) incl. seeded; 3 modes; batch length mismatches; random decoder inputs; both groups; build: release + debug-assertions + overflow-checks".into());
         },
         "C18" => scen_threads::c18(&opts, &mut out),
+        "C20" => scen_zeroize::c20(&opts, &mut out),
         "C07" => scen_recover::c07(&opts, &mut out),
         "C08" => scen_recover::c08(&opts, &mut out),
         "C09" => scen_recover::c09(&opts, &mut out),
